@@ -164,8 +164,84 @@ def main(chk):
         for name in ('SMA', 'WMA', 'SD', 'BB', 'MAD', 'MIN', 'MAX', 'CCI', 'MFI'):
             jobs.append((unroll_family, (mir, name, n, (3 * n + 4) if q else (4 * n + 4), chk.seed, to), {}))
     chk.add(run_jobs(jobs))
+    hs = [k_bb_mean_table(2, 6, chk.seed)] + ([k_bb_mean(2, 5), k_bb_mean_table(3, 8, chk.seed), k_bb_mean(3, 6)] if not q else [])
+    chk.add(kani.run_family_set('C13', hs, jobs=4, timeout_s=240 if q else 3600))
     chk.assumptions += ['f64 arithmetic modelled as exact real arithmetic in engine R: what is decided is the absence of ALGEBRAIC drift',
                         'the inductive invariant (each accumulator equals its definition over the ring buffer, unfilled slots are 0) is hand-written over field names; '
                         'a failed step is reported as ceiling-not-reached, never as a violation']
     chk.notes += ['accumulated floating-point rounding over 10^5..10^6 steps: a numerically worse but algebraically equal update order would pass',
                   'periods above the bound']
+
+
+# ------------------------------------------------------------------------------------------------ engine K (bug hunting only)
+from vlib import kani, native
+from vlib.kani import KB, KOps
+
+
+CANCEL_TAB = [1000.0, 2.0, 2.000001, 1.999999, 2.0000005]
+
+
+def k_bb_mean_table(n, t, seed):
+    """same assertion on an alphabet built to provoke cancellation (a spike, then ticks of 1e-6 around a level); sqrt stubbed
+    (the average does not depend on it)"""
+    tab = CANCEL_TAB[seed % len(CANCEL_TAB):] + CANCEL_TAB[:seed % len(CANCEL_TAB)]
+    b = KB('c13_bb_mean_tab_n%d_t%d' % (n, t), unwind=n + 3, stub_sqrt=True,
+           family='K:C13 BB n=%d, %d inputs symbolic over a cancellation alphabet: average within 1e-8 of the window mean' % (n, t),
+           bounds=dict(engine='K', indicator='BB', n=n, t=t, inputs='each input symbolic over %r' % (tab,), stubs=['f64::sqrt -> arbitrary value (the average does not depend on it)']))
+    k = KOps(b)
+    k.new('a', 'BB', [n], '2.0')
+    vs = []
+    for i in range(t):
+        v = b.pick('x%d' % i, tab); k.tables['x%d' % i] = tab
+        vs.append(v)
+        o = k.feed('a', 'scalar', ('var', v, ('pick', 'x%d' % i)))
+        w = vs[max(0, i - n + 1):]
+        b.emit('{ let m = (%s) / %d.0; let d = f64::from_bits(%s[0]) - m; assert!(d <= 1e-8 && d >= -1e-8, "Bollinger average drifted from the window mean"); }' % (' + '.join(w), len(w), o))
+
+    def confirm(vals):
+        ops = k.concrete(vals)
+        lines, res = kani.native_ops(ops)
+        xs = [kani.hexf(op[2]) for op in ops if op[0] == 'feed']
+        fo = [o for op, o in zip(ops, res) if op[0] == 'feed']
+        from fractions import Fraction as F
+        for i, o in enumerate(fo):
+            w = xs[max(0, i - n + 1):i + 1]
+            ref = sum(F(x) for x in w) / len(w)
+            if o == 'panic' or abs(F(o[0]) - ref) > F(1, 10 ** 8):
+                return True, lines, 'BB(%d) average %r vs exact window mean %r after inputs %r' % (n, o, float(ref), xs[:i + 1])
+        return False, lines, 'native average within tolerance'
+    b.confirm = confirm
+    return b
+
+
+def k_bb_mean(n, t):
+    """bit-precise, short horizon: Bollinger average vs the window mean in a three-decade price band.  CBMC is used here as a
+    bug finder (Kroening et al.): a counterexample found and reproduced natively is a violation, a timeout only means the ceiling
+    was not reached -- the family is not required."""
+    b = KB('c13_bb_mean_n%d_t%d' % (n, t), unwind=n + 3, required=False,
+           family='K:C13 BB n=%d, %d inputs in [1, 1000]: average within 1e-8 of the mean of the last %d inputs (bug hunting, not required)' % (n, t, n),
+           bounds=dict(engine='K', indicator='BB', n=n, t=t, inputs='every f64 in [1, 1000]', note='bug hunting only: a timeout is not a verdict'))
+    k = KOps(b)
+    k.new('a', 'BB', [n], '2.0')
+    vs = []
+    for i in range(t):
+        v = b.anyf('x%d' % i, finite=True, cond='{v} >= 1.0 && {v} <= 1000.0')
+        vs.append(v)
+        o = k.feed('a', 'scalar', ('var', v, ('sym', 'x%d' % i)))
+        w = vs[max(0, i - n + 1):]
+        b.emit('{ let m = (%s) / %d.0; let d = f64::from_bits(%s[0]) - m; assert!(d <= 1e-8 && d >= -1e-8, "Bollinger average drifted from the window mean"); }' % (' + '.join(w), len(w), o))
+
+    def confirm(vals):
+        ops = k.concrete(vals)
+        lines, res = kani.native_ops(ops)
+        xs = [kani.hexf(op[2]) for op in ops if op[0] == 'feed']
+        fo = [o for op, o in zip(ops, res) if op[0] == 'feed']
+        from fractions import Fraction as F
+        for i, o in enumerate(fo):
+            w = xs[max(0, i - n + 1):i + 1]
+            ref = sum(F(x) for x in w) / len(w)
+            if o == 'panic' or abs(F(o[0]) - ref) > F(1, 10 ** 8):
+                return True, lines, 'BB(%d) average %r vs exact window mean %r after inputs %r' % (n, o, float(ref), xs[:i + 1])
+        return False, lines, 'native average within tolerance'
+    b.confirm = confirm
+    return b
